@@ -17,6 +17,7 @@ var c08Writes = []string{
 	"InsertDKGResult", "InsertEonPublicKey", "InsertEon", "InsertBatchConfig", "InsertPolyEval", "DeletePolyEval",
 	"DeletePolyEvalByEon", "InsertEncryptionKey", "SetLastBlockSeen", "SetLastBatchConfigProcessed",
 }
+
 // DeleteShutterMessage is deliberately not in this list: the outbox is drained outside a transaction
 // (send, then delete); rule R5 covers its ordering and the absorption of re-sends.
 
@@ -237,7 +238,7 @@ func c08Infra(name string) bool {
 // reviewed exemptions of the error-propagation rule, one named call each
 var c08ErrExempt = map[string]string{
 	"(*keyper/smobserver.ShuttermintState).handleBatchConfigStarted|database.Queries).GetLatestEonForKeyperConfig": "read-only query whose value feeds a metrics gauge only; no state depends on it",
-	"(*keyper/smobserver.ShuttermintState).handlePolyEval|smobserver.ShuttermintState).decryptPolyEval":           "content error of another keyper's message: logged and skipped by design (a Byzantine eval must not stop the keyper)",
+	"(*keyper/smobserver.ShuttermintState).handlePolyEval|smobserver.ShuttermintState).decryptPolyEval":            "content error of another keyper's message: logged and skipped by design (a Byzantine eval must not stop the keyper)",
 }
 
 func c08Invalidate(p *Prog, c *Check) {
